@@ -38,7 +38,7 @@ ASSUMPTIONS = ["Ed25519 / ECDSA verification in ipv8_rust_tunnels is trusted (it
                "a message type counts as authenticated when honest nodes emit it with a valid trailing signature"]
 REACH = ["mutant_reached_verification", "authentic_handler_entries", "kind:flip", "kind:keysub", "kind:foreign_sig",
          "kind:resign_own", "kind:splice", "kind:spoof_src", "kind:strip_sig", "kind:msgid_swap", "kind:truncate",
-         "kind:extend", "kind:replay"]
+         "kind:extend", "kind:replay", "verified_peer_dropped_before_mutant"]
 
 SCN_NAMES = ["community", "discovery", "dht", "dhtdiscovery", "tunnel", "hidden", "pex", "attestation", "identity"]
 KINDS = ["flip", "flip", "flip", "truncate", "extend", "keysub", "foreign_sig", "resign_own", "strip_sig", "splice",
@@ -64,7 +64,7 @@ def cases(tier: str, base_seed: int):  # noqa: ANN201
     for occ in ((0, 1) if tier == "quick" else (0, 1, 2, 3)):
         for scn in SCN_NAMES:
             n += 1
-            yield {"scenario": scn, "seed": base_seed + n, "knobs": {}, "curve": "curve25519",
+            yield {"scenario": scn, "seed": base_seed + n, "knobs": {}, "curve": "curve25519", "drop": occ % 2 == 1,
                    "plan": {"mode": "sweep", "occurrence": occ, "stride": 7 if tier == "quick" else 1,
                             "masks": [1, 0x80] if tier == "quick" else [1, 2, 4, 8, 16, 32, 64, 128, 255]}}
     for i in itertools.count():
@@ -82,7 +82,7 @@ def cases(tier: str, base_seed: int):  # noqa: ANN201
                    "curve": "curve25519", "ep_kind": rng.choice(["tunnel", "tunnel", "udp"]),
                    "plan": {"mode": "sample", "p": rng.choice([0.1, 0.3]), "per": 1}}
             continue
-        yield {"scenario": SCN_NAMES[i % len(SCN_NAMES)], "seed": seed, "knobs": knobs, "curve": curve,
+        yield {"scenario": SCN_NAMES[i % len(SCN_NAMES)], "seed": seed, "knobs": knobs, "curve": curve, "drop": (i // 9) % 3 == 1,
                "plan": {"mode": "sample", "p": rng.choice([0.15, 0.3, 0.6]), "per": rng.choice([1, 2, 4])}}
 
 
@@ -242,6 +242,13 @@ def execute(case: dict) -> dict:  # noqa: C901, PLR0915
 
         def hand() -> None:
             state["cur"] = mid
+            if not auth and case.get("drop") and rng.random() < 0.5:
+                # history: the churn has just dropped the verified peer at this address (Network.remove_peer is what RandomChurn
+                # calls after its unanswered pings); the datagram without a valid signature arrives from that address right after
+                for nw in nets_of.get(tr.host.name, ()):
+                    for p in [p for p in list(nw.verified_peers) if tuple(src) in {tuple(a) for a in p.addresses.values()}]:
+                        nw.remove_peer(p)
+                        world.probe("verified_peer_dropped_before_mutant")
             before = None if auth else peer_state()
             try:
                 tr.proto.datagram_received(data, src)
@@ -262,6 +269,12 @@ def execute(case: dict) -> dict:  # noqa: C901, PLR0915
                         c.violate("no_effect", "non_authentic_changed_verified_peer_address",
                                   f"non-authentic datagram ({kind} pos={pos} type={typ[1]}) from {src} changed the addresses of verified "
                                   f"peer ..{k2[1].hex()[-16:]} from {addrs} to {after[k2]}")
+                        break
+                for k2 in after:
+                    if k2 not in before:
+                        c.violate("no_effect", "non_authentic_added_verified_peer",
+                                  f"non-authentic datagram ({kind} pos={pos} type={typ[1]}) from {src} put ..{k2[1].hex()[-16:]} into the "
+                                  f"verified peers")
                         break
                 world.probe("verified_peer_entries_compared")
         if auth:
